@@ -48,7 +48,9 @@ def machine_jobs(tier, roots=None, kinds=("entry", "scanner")):
             results += sr
         if "entry" in kinds:
             ej = R.entry_jobs(cfg, prof, roots=roots)
-            if failed:
+            if failed and tier == "thorough":
+                # quick tier: a broken scanner contract is attributed to the grammar properties that
+                # rely on that scanner (see properties_of); thorough tier: see its actual effect
                 for j in ej:
                     j["no_summary"] = sorted(failed)
             er = R.run_jobs(ej, budget=QUICK_BUDGET, th=th)
@@ -67,10 +69,14 @@ def job_summary(jobs, results):
     return out
 
 
-def machine_check(pid, tier, roots=None, kinds=("entry", "scanner"), level="proof", obligation_kinds=None, explanation=None, pid_filter=None, extra=None):
+def machine_check(pid, tier, roots=None, kinds=("entry", "scanner"), level="proof", obligation_kinds=None, explanation=None, pid_filter=None, extra=None,
+                  job_filter=None):
     c = Check(pid, tier, level)
     try:
         jobs, results = machine_jobs(tier, roots, kinds)
+        if job_filter is not None:
+            keep = [i for i, j in enumerate(jobs) if job_filter(j)]
+            jobs, results = [jobs[i] for i in keep], [results[i] for i in keep]
     except F.BuildError as e:
         c.violation("build-failed|%s-%s" % (e.config, e.profile), {"rule": "build-failed", "detail": e.log[-1500:]})
         c.obligations += 1
@@ -123,7 +129,8 @@ def C05(tier):
 
 
 def C06(tier):
-    return machine_check("C06", tier, roots=[r for r in R.ENTRY_ROOTS if root_kind(r) == "request"], kinds=("entry",),
+    return machine_check("C06", tier, roots=[r for r in R.ENTRY_ROOTS if root_kind(r) == "request"], kinds=("entry", "scanner"),
+                         job_filter=lambda j: j["kind"] == "entry" or j["root"].endswith("match_uri_vectored"),
                          explanation="request entry points in product with the request-line reference grammar (both multi-space settings)")
 
 
@@ -133,7 +140,8 @@ def C07(tier):
 
 
 def C08(tier):
-    return machine_check("C08", tier, roots=[r for r in R.ENTRY_ROOTS if root_kind(r) != "chunk"], kinds=("entry",),
+    return machine_check("C08", tier, roots=[r for r in R.ENTRY_ROOTS if root_kind(r) != "chunk"], kinds=("entry", "scanner"),
+                         job_filter=lambda j: j["kind"] == "entry" or not j["root"].endswith("match_uri_vectored"),
                          explanation="header block under the default options: verdict, offsets and every stored name/value region equal the reference")
 
 
@@ -195,7 +203,8 @@ def C12(tier):
 
 
 def C14(tier):
-    return machine_check("C14", tier, roots=[r for r in R.ENTRY_ROOTS if r.startswith("ParserConfig::")], kinds=("entry",),
+    return machine_check("C14", tier, roots=[r for r in R.ENTRY_ROOTS if r.startswith("ParserConfig::")], kinds=("entry", "scanner"),
+                         job_filter=lambda j: j["kind"] == "entry" or not j["root"].endswith("match_uri_vectored"),
                          explanation="all header-option combinations (symbolic configuration) against the reference parameterised by the same options")
 
 
